@@ -53,6 +53,12 @@ class GridDriver:
         with: text stays text (sources of kind "mixlist" supply str(n) for odd cells), numbers stay numbers."""
         try:
             want_text = getattr(self, "reps", {}).get(name) == "mix" and i % 2 == 1
+            if getattr(self, "reps", {}).get(name) == "half":
+                # n at the first cell, n + 0.5 elsewhere (as supplied)
+                if i == 0:
+                    return int(v) if (float(v) == int(v) and not isinstance(v, str)) else -99993
+                x = float(v)
+                return int(x - 0.5) if x - 0.5 == int(x - 0.5) else -99993
             if getattr(self, "reps", {}).get(name) == "bool0":
                 # supplied as the bool False (trace value k): must come back as a bool that is false
                 return self.kof.get(name, 0) if (isinstance(v, (bool, np.bool_)) and not v) else -99994
@@ -218,6 +224,15 @@ class GridDriver:
                     def __call__(self, pos, cells):
                         return 100 * pos[0] + 10 * pos[1] + pos[2] + k
                 gen = _G()
+        elif kind == "halfcall":
+            # a distance-decay style generator: a whole number (an int) at the first cell, fractions (n + 0.5) everywhere else
+            first = [True]
+
+            def gen(pos, cells, first=first):
+                v = 100 * pos[0] + 10 * pos[1] + pos[2] + k
+                if tuple(pos) == (0, 0, 0):
+                    return v
+                return v + 0.5
         elif kind == "bigcall":
             # a generator whose arithmetic passes through numbers far beyond 64 bits (coordinates are plain integers)
             gen = lambda pos, cells: ((100 * pos[0] + 10 * pos[1] + pos[2] + k) * 10 ** 19 + 7) // 10 ** 19  # noqa: E731
@@ -278,6 +293,10 @@ class GridDriver:
                 table = [[100 * x + 10 * y + k for y in range(H)] for x in range(W)]
             else:
                 table = [[[100 * x + 10 * y + z + k for z in range(D)] for y in range(H)] for x in range(W)]
+            if self.dims == 3 and k % 3 == 2:
+                # the table as a numpy array whose axes were rearranged so that x comes first (a transposed view of z-y-x data)
+                zyx = np.array([[[100 * x + 10 * y + z + k for x in range(W)] for y in range(H)] for z in range(D)])
+                table = zyx.transpose(2, 1, 0)
             # the same generator object is re-used for every lookup component of this world; its table is replaced in between
             if getattr(self, "lookup", None) is None:
                 self.lookup = LookupGenerator(table)
@@ -297,8 +316,8 @@ class GridDriver:
             self.kof = getattr(self, "kof", {})
             self.kof[name] = k
             self.reps = getattr(self, "reps", {})
-            self.reps[name] = {"mixlist": "mix", "farray": "f", "fconst": "bool0"}.get(kind)
-        self.events.append({"op": "add_cell_component", "name": name, "kind": {"roarray": "array", "farray": "array", "tconst": "constant", "tconst3": "constant", "fconst": "constant", "bigcall": "callable", "mixlist": "list", "tuplist": "list"}.get(kind, kind), "k": k, "vals": vals, "dims": self.dims,
+            self.reps[name] = {"mixlist": "mix", "farray": "f", "fconst": "bool0", "halfcall": "half"}.get(kind)
+        self.events.append({"op": "add_cell_component", "name": name, "kind": {"roarray": "array", "farray": "array", "tconst": "constant", "tconst3": "constant", "fconst": "constant", "halfcall": "callable", "bigcall": "callable", "mixlist": "list", "tuplist": "list"}.get(kind, kind), "k": k, "vals": vals, "dims": self.dims,
                             "out": outcome(exc), "cols": self.cols()})
 
     def op_mutate(self, name):
@@ -355,7 +374,7 @@ def c09_programs(max_ext):
     for s in shapes(max_ext):
         for cls in classes_for(s):
             lk = ("list", "mixlist", "tuplist")[len(out) % 3]          # plain / mixed numbers and text / one tuple per cell
-            prog = [["grid", cls, s, (sum(s) + len(out)) % 2 == 1], ["add", "p", "callable", 3], ["add", "q", lk, 1]]
+            prog = [["grid", cls, s, (sum(s) + len(out)) % 2 == 1], ["add", "p", ("callable", "halfcall")[len(out) % 2], 3], ["add", "q", lk, 1]]
             prog += [["id_of", c] for c in cells(s)]
             prog += [["get_cell", c] for c in probe(s)]
             # the row must be the cell's CURRENT row: look every cell up again after components were removed / replaced
@@ -400,7 +419,7 @@ def c11_random_program(rng, max_ext=3, length=10):
     for _ in range(length):
         r = rng.random()
         if r < 0.55:
-            prog.append(["add", rng.choice(names), rng.choice(["callable", "callable", "bigcall", "constant", "fconst", "tconst", "tconst3", "list", "mixlist", "tuplist", "array", "farray", "roarray", "lookup", "lookup", "halve", "halve"]), rng.choice([0, 3, 5, -4])])
+            prog.append(["add", rng.choice(names), rng.choice(["callable", "callable", "bigcall", "halfcall", "constant", "fconst", "tconst", "tconst3", "list", "mixlist", "tuplist", "array", "farray", "roarray", "lookup", "lookup", "halve", "halve"]), rng.choice([0, 3, 5, -4])])
         elif r < 0.7:
             prog.append(["mutate", rng.choice(names)])
         elif r < 0.9:
